@@ -54,8 +54,65 @@ def lemmas():
                for c in s.active_chars), '')
 
 
+def longest_match_bounded(seed):
+    """the sentence of the property on enumerated short inputs: tex2txt
+    against a reference translator (documented table, longest match at each
+    offset, every other character copied, 1-based identity positions)"""
+    import itertools
+    from pyvc import replay as _r
+    t2t = _r.real_module('yalafi.tex2txt')
+    doc = {'--': '\u2013', '---': '\u2014', '``': '\u201c', "''": '\u201d',
+           '~': '\xa0', '\\,': '\u202f', '\\%': '%', '\\&': '&',
+           '\\$': '$', '\\#': '#', '\\_': '_', '\\{': '{', '\\}': '}',
+           '\\\\': ' ', '&': ' '}
+    keys = sorted(doc, key=lambda k: -len(k))
+
+    def ref(src):
+        out, pos, i = '', [], 0
+        while i < len(src):
+            for k in keys:
+                if src.startswith(k, i):
+                    out += doc[k]
+                    pos += [i + 1] * len(doc[k])
+                    i += len(k)
+                    break
+            else:
+                out += src[i]
+                pos.append(i + 1)
+                i += 1
+        return out, pos
+    spaces = [('a-', 9), ("a`'", 6), ('a-~&', 5), (['a', '\\,', '\\%', '\\&',
+                                                    '-'], 4)]
+    n, fails = 0, []
+    for alpha, mx in spaces:
+        for ln in range(0, mx + 1):
+            for t in itertools.product(alpha, repeat=ln):
+                src = ''.join(t)
+                n += 1
+                want = ref(src)
+                if any(l and not l.strip() for l in want[0].split('\n')):
+                    # a special sequence on an otherwise blank line: that
+                    # case belongs to C05, the property excludes it
+                    continue
+                got = t2t.tex2txt(src, t2t.Options())
+                if (got[0], list(got[1])) != want:
+                    fails.append({'input': src, 'got': got[0],
+                                  'expected': want[0]})
+                    if len(fails) >= 3:
+                        return {'name': 'longest-match-on-short-inputs',
+                                'bounded': True, 'bound': 'see evidence',
+                                'evaluations': n, 'failures': fails}
+    return {'name': 'longest-match-on-short-inputs', 'bounded': True,
+            'bound': 'all strings over {a,-} up to length 9, {a,`,\'} up '
+                     'to 6, {a,-,~,&} up to 5, {a,\\,,\\%,\\&,-} up to 4 '
+                     'pieces (no blank lines, so C05 does not interfere)',
+            'evaluations': n, 'failures': fails}
+
+
+QUICK_BOUNDED = [longest_match_bounded]
+
 TRUSTED = cm.TRUSTED_CORE
 ASSUMPTIONS = cm.ASSUME_CORE + ['list.sort contract assumed']
 LEVEL_TEXT = 'Proves: every scanner token other than an error mark or verbatim material is the source slice at its own offset and the tokens tile the source (so plain prose is tokenised into its own characters); a Special token carries a key of the table that is a prefix of the remaining source; expand_sequence replaces a Special token by a Text token at the same offset whose text is the table value (table lemma by evaluation of the real Parameters object: documented values, len(value) <= len(key), every key outside the documented list starts with a LaTeX-active character so that prose is never rewritten); the default branch appends the token itself; get_txt_pos maps the k-th character of a non-fixed token to pos+k. NOT proved: longest match (needs an index-aware invariant over the sorted key list; the sort order itself is checked by evaluation).'
-LEVEL_NOTE = 'Longest-match is covered only by the evaluation lemma "keys sorted by non-increasing length" plus the first-match structure of the loop; identity of remove_pure_action_lines on lists without action tokens is not proved.'
+LEVEL_NOTE = 'A bounded stand-in (real tex2txt against a reference longest-match translator on all short inputs over four small alphabets, reported as bounded, not counted as proved) runs in the quick tier. Deductively, longest-match is covered only by the evaluation lemma "keys sorted by non-increasing length" plus the first-match structure of the loop; identity of remove_pure_action_lines on lists without action tokens is not proved.'
 TECHNIQUE = 'contract-based deductive verification: per-function postconditions and loop invariants over the real AST, z3; end-to-end sentence of the property not decided'
